@@ -26,6 +26,15 @@ func sizedMessage(r *rand.Rand, kind string, size int, chunk string) protocol.Ch
 	switch kind {
 	case "message":
 		return &protocol.Message{Tag: "tag", Timestamp: 1700000000, Record: map[string]interface{}{"k": pad}, Options: opts}
+	case "message_arr":
+		// the bulk of the record sits in nested arrays and maps, not in one long string (size estimates that
+		// only know strings exactly are far off for such records)
+		var lines []interface{}
+		for n := 0; n < size; n += 70 {
+			lines = append(lines, strings.Repeat("s", 66))
+		}
+		lines = append(lines, map[string]interface{}{"a": []interface{}{int64(1), int64(2)}})
+		return &protocol.Message{Tag: "tag", Timestamp: 1700000000, Record: map[string]interface{}{"stack": lines}, Options: opts}
 	case "message_ext":
 		return &protocol.MessageExt{Tag: "tag", Timestamp: protocol.EventTimeNow(), Record: map[string]interface{}{"k": pad}, Options: opts}
 	case "forward":
